@@ -41,7 +41,10 @@ type Input struct {
 	Tags   []string   `json:"tags,omitempty"`
 }
 
-const PromURIPlaceholder = "{{PROM_URI}}"
+const (
+	PromURIPlaceholder    = "{{PROM_URI}}"
+	PromURIAltPlaceholder = "{{PROM_URI_ALT}}" // the same server under its other loopback name
+)
 
 func (in Input) Key() string {
 	var b strings.Builder
@@ -453,6 +456,11 @@ func GenConfig(t *rapid.T, online bool, minBlocks int, commentPerKind bool) (str
 		}
 		sb.WriteString("}\n")
 		tags = append(tags, "online")
+		if rapid.IntRange(0, 2).Draw(t, "cfg.prom2") == 0 {
+			// a second server: every online check runs once per server on each rule
+			sb.WriteString("prometheus \"prom2\" {\n  uri = \"" + PromURIAltPlaceholder + "\"\n  timeout = \"30s\"\n  rateLimit = 100000\n}\n")
+			tags = append(tags, "online2")
+		}
 	}
 	nb := rapid.IntRange(min(minBlocks, 4), 4).Draw(t, "cfg.nrules")
 	for i := 0; i < nb; i++ {
@@ -524,7 +532,8 @@ func Materialize(dir string, in Input, promURI string) error {
 }
 
 func ConfigText(in Input, promURI string) string {
-	return strings.ReplaceAll(in.Config, PromURIPlaceholder, promURI)
+	s := strings.ReplaceAll(in.Config, PromURIPlaceholder, promURI)
+	return strings.ReplaceAll(s, PromURIAltPlaceholder, strings.Replace(promURI, "127.0.0.1", "localhost", 1))
 }
 
 type JSONReport struct {
